@@ -7,8 +7,19 @@ use scale_typegen::typegen::ir::ToTokensWithSettings;
 use scale_typegen::{TypeGenerator, TypeGeneratorSettings, TypegenError};
 use std::panic::{catch_unwind, AssertUnwindSafe};
 
+thread_local! {
+    /// > 0 while the code under test runs inside `guarded` (its panics are verdicts, not noise)
+    static GUARD_DEPTH: std::cell::Cell<u32> = const { std::cell::Cell::new(0) };
+}
+
+/// Panics of the code under test (inside `guarded`) are silent: they become violations. A panic anywhere else
+/// is a bug of the machinery: it is printed, and the supervising process turns the exit status into exit 2.
 pub fn install_quiet_panic_hook() {
-    std::panic::set_hook(Box::new(|_| {}));
+    std::panic::set_hook(Box::new(|info| {
+        if GUARD_DEPTH.with(|d| d.get()) == 0 {
+            eprintln!("machinery error: panic in the harness itself (not in the code under test): {info}");
+        }
+    }));
 }
 
 pub fn panic_msg(e: Box<dyn std::any::Any + Send>) -> String {
@@ -23,7 +34,10 @@ pub fn panic_msg(e: Box<dyn std::any::Any + Send>) -> String {
 
 /// run `f`, turning a panic into `Err(message)`
 pub fn guarded<T>(f: impl FnOnce() -> T) -> Result<T, String> {
-    catch_unwind(AssertUnwindSafe(f)).map_err(panic_msg)
+    GUARD_DEPTH.with(|d| d.set(d.get() + 1));
+    let r = catch_unwind(AssertUnwindSafe(f)).map_err(panic_msg);
+    GUARD_DEPTH.with(|d| d.set(d.get().saturating_sub(1)));
+    r
 }
 
 #[derive(Clone, Debug, PartialEq, Eq, Hash)]
